@@ -10,10 +10,10 @@ def run(ctx, args):
     quick = ctx.tier == "quick"
     d = ctx.specdir("Rounds")
     # ---- E3: order independence, shape and injectivity over every ordered slice of the pool
-    ctx.tlc_mc(d, "MC_RoundHash.tla", "MC_RoundHash.cfg", workers=8, timeout=1500)
+    ctx.tlc_mc(d, "MC_RoundHash.tla", "MC_RoundHash.cfg", workers=8, timeout=3000)
     ctx.exhaustive = True
     # ---- E1: every case of the table is executed on both real implementations
-    cases = ctx.tlc_edges(d, "MC_RoundHash.tla", "Gen_RoundHash.cfg", tag="CASE ", timeout=1500)
+    cases = ctx.tlc_edges(d, "MC_RoundHash.tla", "Gen_RoundHash.cfg", tag="CASE ", timeout=3000)
     # (a CONSTRAINT is evaluated more than once per state: drop repeats)
     cases = [json.loads(k) for k in sorted({json.dumps(c, sort_keys=True) for c in cases})]
     rng = random.Random(ctx.seed)
@@ -52,14 +52,14 @@ def run(ctx, args):
                 "node/number, several orders); distinct = distinct (node, number, ordered slice) with more than one member"
                 % (16 if quick else 64))
     ctx.samples = [{k: e[k] for k in ("impl", "node", "n", "q", "res", "start", "end", "hc")} for e in calls[:2] + calls[-2:]]
-    r = ctx.tlc_trace(d, "Trace_RoundHash.tla", "Trace_RoundHash_full.cfg", trace, timeout=1500)
+    r = ctx.tlc_trace(d, "Trace_RoundHash.tla", "Trace_RoundHash_full.cfg", trace, timeout=3000)
     if r["accepted"]:
         ctx.traces = len(traces)
         ctx.log("E2 full conformance: %d groups / %d lines accepted" % (len(traces), len(events)))
     else:
         ctx.log("E2 full conformance rejected at line %s; running the property monitor" % r["line"])
         ctx.mismatches.append({"line": r["line"], "event": events[r["line"] - 1] if r["line"] and r["line"] <= len(events) else None})
-        r2 = ctx.tlc_trace(d, "Trace_RoundHash.tla", "Trace_RoundHash_monitor.cfg", trace, timeout=1500)
+        r2 = ctx.tlc_trace(d, "Trace_RoundHash.tla", "Trace_RoundHash_monitor.cfg", trace, timeout=3000)
         if r2["accepted"]:
             ctx.traces = len(traces)
             ctx.notes.append("conformance mismatch not forbidden by this property (see conformance_mismatches)")
